@@ -226,7 +226,7 @@ def run (tol : Rat) : Call → Out
       checks [(n1 != n2, "ShapeCreationError"), (mids.any (· != n1), "ShapeCreationError")]
   | .stackSlice axis idx n0 n1 n2 =>
       checks [(!(axis == 0 || axis == 1 || axis == 2), "ValueError"),
-              (decide (idx < 0), "IndexError"),
+              (decide (idx < 0), "ValueError"),
               (axis == 2 && decide ((n2 : Int) ≤ idx), "IndexError"),
               (axis == 0 && decide (0 < n2) && decide (0 < n1) && decide ((n0 : Int) ≤ idx), "IndexError"),
               (axis == 1 && decide (0 < n2) && decide ((n1 : Int) ≤ idx), "IndexError")]
